@@ -184,6 +184,8 @@ KNOWN = {'KF-C08-channel-after-terminal': known_channel_after_terminal, 'KF-C08-
 
 
 def correspond(ctx, corr, model_ok):
+    from harness import battery
+    battery.run(corr, ['reconnect-setup'])
     n = ctx.scale(240, 2500)
     runs, crashed = E.run_all(_descs(ctx, n))
     corr.oracle_failures.extend(crashed)
@@ -242,6 +244,10 @@ def search(ctx, budget):
 
 
 def replay(obj):
+    from harness import battery as _bat
+    _r = _bat.replay(obj.get('case') if isinstance(obj.get('case'), dict) else obj)
+    if _r is not None:
+        return _r
     case = obj.get('case') or obj
     if 'setup_case' in case:
         return bool(setup_oracle(tuple(case['setup_case'])))
